@@ -487,6 +487,46 @@ theorem C19_wf_preserved {s s' : State χ κ} (h : WF s) (new : Item χ κ) (hin
   cases hins'
   exact hwf
 
+omit [LinearOrder κ] in
+/-- `WF` = consistent links (`RepL`, the clauses of `C19_WF_iff` without the last) + sortedness -/
+theorem C19_WF_iff_links (s : State χ κ) :
+    WF s ↔ RepL s.trials s.first (traversal s) ∧
+      (coordsOf s.trials (traversal s)).Pairwise (· ≤ ·) := by
+  constructor
+  · intro h; exact ⟨Rep.repL h, Rep.coords_sorted h⟩
+  · rintro ⟨hL, h7⟩
+    refine ⟨hL.first_eq, hL.ne_nil, hL.perm, hL.seg, ?_⟩
+    unfold coordsOf at h7
+    rw [List.pairwise_filterMap] at h7
+    refine List.Pairwise.imp ?_ h7
+    intro a b hab xa xb hxa hxb
+    exact hab xa hxa xb hxb
+
+/-- **C19_insert_any_hint** (what a WRONG hint does; the three cases are exhaustive).  The hint is
+trusted blindly: if `r` is a stored item other than the first one, the insertion succeeds and the
+new id is spliced in immediately before `r` with consistent links — whatever the coordinates are, so
+the order is lost unless the hint was right (`C19_insert_ok`).  Hinting the first item, or an id
+that is not stored, raises `AttributeError`. -/
+theorem C19_insert_any_hint {s : State χ κ} (h : WF s) (new : Item χ κ) (r : Nat) :
+    (∀ A l B, traversal s = A ++ l :: r :: B →
+      ∃ s', insert ltB leB s new (some r) = .ok s' ∧
+        traversal s' = A ++ l :: s.trials.size :: r :: B ∧
+        RepL s'.trials s'.first (traversal s')) ∧
+    (∀ B, traversal s = r :: B → insert ltB leB s new (some r) = .error .attributeError) ∧
+    (s.trials.size ≤ r → insert ltB leB s new (some r) = .error .attributeError) := by
+  have hL : RepL s.trials s.first (traversal s) := Rep.repL h
+  refine ⟨?_, ?_, ?_⟩
+  · intro A l B ht
+    rw [ht] at hL
+    obtain ⟨s', hins, -, -, hL'⟩ := insert_hint_links (κ := κ) hL new
+    refine ⟨s', hins, hL'.traversal_eq, ?_⟩
+    rw [hL'.traversal_eq]; exact hL'
+  · intro B ht
+    rw [ht] at hL
+    exact insert_hint_first_err (κ := κ) hL new
+  · intro hr
+    exact insert_hint_oob_err (κ := κ) hr new
+
 omit [LinearOrder χ] [LinearOrder κ] in
 theorem insertedXs_cons (op : Op χ κ) (ops : List (Op χ κ)) :
     insertedXs (op :: ops) = insertedXs [op] ++ insertedXs ops := by
@@ -661,21 +701,22 @@ stored item.  The request never fails (for a non-degenerate bound `maxlen ≠ so
 theorem C19_pop_max {s : State χ κ} (h : WF s) (hs : QSorted s.gq) (hm : s.maxlen ≠ some 0) :
     ∃ s' i k, popMaxGlobal leB s = .ok (s', i, k) ∧
       s'.trials = s.trials ∧ s'.first = s.first ∧
-      ((s.gq = (k, i) :: s'.gq ∧ ∀ e ∈ s.gq, e.1 ≤ k) ∨
+      ((s.gq = (k, i) :: s'.gq ∧ s' = { s with gq := s'.gq } ∧ ∀ e ∈ s.gq, e.1 ≤ k) ∨
        (s.gq = [] ∧ (refill leB s).gq = (k, i) :: s'.gq ∧
+          s' = { refill leB s with gq := s'.gq } ∧
           (∃ it, s.trials[i]? = some it ∧ k = it.globalR) ∧
           ∀ (j : Nat) (jt : Item χ κ), s.trials[j]? = some jt → jt.globalR ≤ k)) := by
   obtain ⟨s', i, k, hrun, hcase⟩ := popMaxGlobal_spec h hm
   refine ⟨s', i, k, hrun, ?_⟩
   rcases hcase with ⟨hq, hs'⟩ | ⟨hq0, hq, hs', hcur, hmax⟩
-  · refine ⟨by rw [hs'], by rw [hs'], Or.inl ⟨hq, ?_⟩⟩
+  · refine ⟨by rw [hs'], by rw [hs'], Or.inl ⟨hq, hs', ?_⟩⟩
     intro e he
     rw [hq] at he hs
     rcases List.mem_cons.1 he with rfl | he
     · exact le_refl _
     · exact hs.head_ge e he
   · exact ⟨by rw [hs']; exact refill_trials s, by rw [hs']; exact refill_first s,
-      Or.inr ⟨hq0, hq, hcur, hmax⟩⟩
+      Or.inr ⟨hq0, hq, hs', hcur, hmax⟩⟩
 
 /-- **C19_dual_pop_current.** The dual-queue best-interval request `popCurrent` on queue `glob`
 (`true`: global characteristics, `false`: local ones — then the container must be the dual variant)
@@ -689,7 +730,8 @@ with `fuel ≥ queue length + 1` (the callers pass `queue length + #items + 2`):
 * otherwise (no entry of the starting queue was current) the queue is refilled and `k` is a global
   maximum: `k ≥` the current characteristic of every stored item.
 
-The items themselves are not modified. -/
+The items themselves are not modified, and `s'` differs from `s` (resp. from the refilled `s`) only
+in the queue worked on (`setq glob s q` replaces that queue by `q`). -/
 theorem C19_dual_pop_current {s : State χ κ} (h : WF s) (glob : Bool) (fuel : Nat)
     (hs : QSorted (selq glob s)) (hids : ∀ e ∈ selq glob s, e.2 < s.trials.size)
     (hd : glob = false → s.dual = true) (hm : s.maxlen ≠ some 0)
@@ -701,14 +743,16 @@ theorem C19_dual_pop_current {s : State χ κ} (h : WF s) (glob : Bool) (fuel : 
       (((∃ e ∈ selq glob s, IsCur glob s.trials e) ∧
           (∃ pre, selq glob s = pre ++ (k, i) :: selq glob s' ∧
             ∀ e ∈ pre, ¬ IsCur glob s.trials e) ∧
+          s' = setq glob s (selq glob s') ∧
           (∀ e ∈ selq glob s, IsCur glob s.trials e → e.1 ≤ k)) ∨
        ((∀ e ∈ selq glob s, ¬ IsCur glob s.trials e) ∧
           selq glob (refill leB s) = (k, i) :: selq glob s' ∧
+          s' = setq glob (refill leB s) (selq glob s') ∧
           ∀ (j : Nat) (jt : Item χ κ), s.trials[j]? = some jt → curOf glob jt ≤ k)) := by
   obtain ⟨s', i, k, hrun, hcur, hcase⟩ := popCurrent_spec h glob fuel hids hd hm hfuel
   refine ⟨s', i, k, hrun, ?_⟩
   rcases hcase with ⟨pre, hq, hpre, hs'⟩ | ⟨hall, hq, hs', hmax⟩
-  · refine ⟨by rw [hs']; simp, by rw [hs']; simp, hcur, Or.inl ⟨?_, ⟨pre, hq, hpre⟩, ?_⟩⟩
+  · refine ⟨by rw [hs']; simp, by rw [hs']; simp, hcur, Or.inl ⟨?_, ⟨pre, hq, hpre⟩, hs', ?_⟩⟩
     · exact ⟨(k, i), by rw [hq]; simp, hcur⟩
     · intro e he hecur
       rw [hq] at he hs
@@ -718,7 +762,7 @@ theorem C19_dual_pop_current {s : State χ κ} (h : WF s) (glob : Bool) (fuel : 
         · exact le_refl _
         · exact QSorted.head_ge (List.pairwise_append.1 hs).2.1 e he3
   · exact ⟨by rw [hs']; simp [refill_trials], by rw [hs']; simp [refill_first], hcur,
-      Or.inr ⟨hall, hq, hmax⟩⟩
+      Or.inr ⟨hall, hq, hs', hmax⟩⟩
 
 /-- **C19_pop_total.** In every state satisfying the invariant (in particular after every valid
 operation sequence, `C19_run_inv`) the best-interval requests issued by the driver succeed. -/
@@ -849,6 +893,11 @@ no longer sorted (this is why `InsertOk` demands a correct hint). -/
 example : (match insert ltB leB s1 { x := 30, globalR := 0, localR := 0 } (some 1) with
     | .ok s' => coordsOf s'.trials (traversal s')
     | .error _ => []) = [0, 10, 25, 50, 60, 75, 30, 100] := by decide
+
+/-- the first case of `C19_insert_any_hint` applies to that wrong hint -/
+example : traversal s1 = [0, 6, 3, 2, 5] ++ 4 :: 1 :: [] := by decide
+example := (C19_insert_any_hint inv1.wf { x := 30, globalR := 0, localR := 0 } 1).1
+  [0, 6, 3, 2, 5] 4 [] (by decide)
 
 /-- an insertion right of the last item raises (`find` returns `None`) -/
 example : (match insert ltB leB s1 { x := 200, globalR := 0, localR := 0 } none with
